@@ -397,14 +397,16 @@ func (s *Session) stopSession(data any) {
 }
 
 func (s *Session) purgeChannels() {
-	for len(s.send) > 0 {
-		<-s.send
-	}
-	for len(s.stop) > 0 {
-		<-s.stop
-	}
-	for len(s.detach) > 0 {
-		<-s.detach
+	// The write loop may be reading from the same channels: checking len() and then receiving
+	// could block forever when the write loop takes the last item in between. Never block here.
+	for {
+		select {
+		case <-s.send:
+		case <-s.stop:
+		case <-s.detach:
+		default:
+			return
+		}
 	}
 }
 
